@@ -97,14 +97,34 @@ def guarded_refill_needs_empty(prog, f, rule, cons=None):
         if not isinstance(lp, ast.For):
             continue
         tgt = None
-        for x in ast.walk(lp):
+        # the guard may be written `if v: X[k] = v`  or  `if not v: continue` followed by the store: read the body with `continue` eliminated
+        cands = list(ast.walk(lp))
+        if any(isinstance(x, ast.Continue) for x in walk_no_nested(lp)) and not any(isinstance(x, (ast.For, ast.While)) for b in lp.body for x in ast.walk(b)):
+            try:
+                from .normalize import _elim_continue, clone as _clone
+                shadow = ast.For(target=lp.target, iter=lp.iter, body=_elim_continue(_clone(lp.body), lp) or [ast.Pass()], orelse=[])
+                for n_ in ast.walk(shadow):
+                    for c_ in ast.iter_child_nodes(n_):
+                        c_._parent = n_
+                shadow._parent = getattr(lp, '_parent', None)
+                cands = [(x, True) for x in ast.walk(shadow)]
+            except Exception:
+                cands = [(x, False) for x in cands]
+        else:
+            cands = [(x, False) for x in cands]
+        for x, shadowed in cands:
+            # `if not v: pass  else: store` (what continue-elimination produces) reads like `if v: store`
+            if isinstance(x, ast.If) and x.orelse and len(x.body) == 1 and isinstance(x.body[0], ast.Pass) and isinstance(x.test, ast.UnaryOp) \
+                    and isinstance(x.test.op, ast.Not):
+                x = ast.If(test=x.test.operand, body=x.orelse, orelse=[])
+                x._parent = lp
             if isinstance(x, ast.If) and not x.orelse and len(x.body) == 1 and isinstance(x.body[0], ast.Assign) \
                     and isinstance(x.body[0].targets[0], ast.Subscript):
                 # only the innermost loop around the guarded store is the refill loop
-                par = x._parent
+                par = getattr(x, '_parent', None)
                 while par is not None and not isinstance(par, (ast.For, ast.While, ast.FunctionDef)):
                     par = getattr(par, '_parent', None)
-                if par is not lp:
+                if par is not lp and not shadowed:
                     continue
                 t = x.body[0].targets[0]
                 base = t.value
